@@ -230,7 +230,8 @@ func rawLoadPackage(sys fs.FS, pkg string) (*token, error) {
 			continue
 		}
 		first := tree.Tokens[0]
-		if first.Symbol != "package" {
+		if first.Symbol != "package" || len(first.Tokens) == 0 {
+			// "* package" parses to a package node without a name: no package clause either
 			return nil, fmt.Errorf("expected package in: %v", fname)
 		}
 		pkgs[first.Tokens[0].Text] = true
@@ -244,7 +245,13 @@ func rawLoadPackage(sys fs.FS, pkg string) (*token, error) {
 	}
 	tree := joinFiles(files)
 	for _, tok := range tree.Tokens {
-		if tok.Symbol == "package" && tok.Tokens[0].Text != "main" && tok.Tokens[0].Text != pkg {
+		if tok.Symbol != "package" {
+			continue
+		}
+		if len(tok.Tokens) == 0 {
+			return nil, fmt.Errorf("%v: expected package name", tok.Pos)
+		}
+		if tok.Tokens[0].Text != "main" && tok.Tokens[0].Text != pkg {
 			exp := symAtPos(tok.Pos, "(string)")
 			exp.Text = pkg
 			tok.Append(exp)
